@@ -204,6 +204,9 @@ def gen_cases(ctx, n_models, n_states, seed_offset=0, gen_opts=None):
       opts.update(stack=(2, 3))         # mixed stacks
     if mi % 7 == 6:
       opts.update(gravity=(0.3, -0.2, -9.81))
+    if mi in (0, 1) and not gen_opts:
+      # history dependence within one process: the same joint layout ('111') as a chain, then as a star
+      opts.update(n_links=(3, 3), stack=(1, 1), roots='world', topology=('chain', 'star')[mi])
     opts.update(gen_opts or {})
     xml, meta = modelgen.gen_model(rng, **opts)
     sysm = mjcf.loads(xml)
